@@ -64,13 +64,13 @@ def ops : List OpEntry := [
   ⟨"scalar.bits", h1 (fun a => (arg32 a).map fun b => ints (bits (from_bytes b)).toList),
                   h1 (fun a => (nat32 a).map fun n => nats (bitsLE n))⟩,
   -- slide: ref10's sliding-window recoding has no functional standard; the Spec is the relation
-  -- `isSlideOf` (theorem / Lean-side test); here code = Impl is compared.  A second answer field gives
-  -- the verdict of the relation on the Impl output so that a violated contract is visible in the log.
+  -- `isSlideOf` (theorem Props.C15.Scalar64.slide_correct for a < 2^255); here code = Impl is compared.
   ⟨"scalar.slide", h1 (fun a => (arg32 a).map fun b => match slide (from_bytes b) with
                               | none => "PANIC"
                               | some r => ints r.toList),
                    noSpec⟩,
-  -- the contract of slide evaluated on the model's output: `true`/`false`
+  -- the contract of slide evaluated on the real output (harness) / the model's output (impl); the Spec answers
+  -- `true` on the documented range a < 2^255 and `?` above it (there the carry can run off the array)
   ⟨"scalar.slide_contract", h1 (fun a => (arg32 a).map fun b => match slide (from_bytes b) with
                               | none => "PANIC"
                               | some r => boolStr (isSlideOf (decode b.toList) r.toList)),
